@@ -485,3 +485,108 @@ Theorem document_run_always_legal_history_needs_disjoint_histories_refuted :
   run_illegal kho_tree [[101%N]] = true.
 Proof. exact disjoint_clause_needed_refuted. Qed.
 Print Assumptions document_run_always_legal_history_needs_disjoint_histories_refuted.
+
+From V Require Import Spec LegalHistParBase LegalHistParEntry LegalHistParStep LegalHistParRun LegalHistParWf LegalHistParFast
+     LegalHistParFastRun LegalHistParOracle.
+
+(* WHAT: after initialisation and after every microstep of EVERY run (all event histories, datamodel states, numbers of
+   steps) of the model Large.v of LargeMicroStep::step the configuration is legal and the history record is usable
+   (CfgOKH, as in run_always_legal_history_strong).
+   FOR WHICH CHARTS: wf_histpb (LegalHistParWf.v) = wf_histb GENERALISED: a <history> may also sit directly below a
+   <parallel> state (completion as flatten builds it: shallow = the regions, deep = every proper state below the
+   parallel).  Extra clauses, vacuous when no history has a parallel parent: (1) hist_par_ok on every transition's
+   targets and every compound's completion list: a list that names a history h of a parallel state q names, below q,
+   only children of q and no other pseudo-state of q; (2) such a history precedes the regions in document order
+   (resortStates does that) and q has a region.  wf_histb c = true -> wf_histpb c = true (next theorem).
+   STATEMENT SHAPE: CfgOKH (legality over PROPER children, what the oracle legal_configb checks), not the CfgOK of
+   run_always_legal: that notion demands ALL children of an active parallel state active and is false as soon as
+   a parallel state has a history child (all_children_notion_refuted below).
+   NOT COVERED: overlapping histories with different parents (false, C02-K1); a transition / initial attribute naming
+   the history of a parallel state together with a state deeper below it (false, see
+   history_of_parallel_target_set_needed); the generated C. *)
+Theorem run_always_legal_history_parallel :
+  forall c xv, wf_histpb c = true -> fs_type (st c 0) = FCompound ->
+  forall fuel evs,
+    CfgOKH c (fst (run_loop c lstate (large_step lg_fixed xv c) l_cfg fuel l_pristine x_init evs)).
+Proof. exact run_legal_history_parallel. Qed.
+Print Assumptions run_always_legal_history_parallel.
+
+(* WHAT: the same for the model Fast.v of FastMicroStep::step (repaired code), same charts *)
+Theorem run_always_legal_history_parallel_fast :
+  forall c xv, wf_histpb c = true -> fs_type (st c 0) = FCompound ->
+  forall fuel evs,
+    CfgOKH c (fst (run_loop c lstate (fast_step xv c) l_cfg fuel l_pristine x_init evs)).
+Proof. exact fast_run_legal_history_parallel. Qed.
+Print Assumptions run_always_legal_history_parallel_fast.
+
+(* WHAT: one step() of either engine model from ANY state with a legal configuration and a usable record *)
+Theorem microstep_preserves_legal_history_parallel :
+  forall c xv, wf_histpb c = true -> fs_type (st c 0) = FCompound ->
+  forall l x, CfgOKH c l -> CfgOKH c (fst (fst (large_step lg_fixed xv c l x))).
+Proof. exact step_legal_history_parallel. Qed.
+Print Assumptions microstep_preserves_legal_history_parallel.
+
+Theorem microstep_preserves_legal_history_parallel_fast :
+  forall c xv, wf_histpb c = true -> fs_type (st c 0) = FCompound ->
+  forall l x, CfgOKH c l -> CfgOKH c (fst (fst (fast_step xv c l x))).
+Proof. exact fast_step_legal_history_parallel. Qed.
+Print Assumptions microstep_preserves_legal_history_parallel_fast.
+
+(* WHAT: the new reach contains the old one *)
+Theorem history_charts_are_covered_parallel : forall c, wf_histb c = true -> wf_histpb c = true.
+Proof. exact wf_histb_histpb. Qed.
+Print Assumptions history_charts_are_covered_parallel.
+
+(* WHAT: the oracle legal_configb implies the legality notion of these theorems on every chart of wf_histpb *)
+Theorem oracle_implies_legal_history_parallel :
+  forall c, wf_histpb c = true -> forall cfg, legal_configb c cfg = true -> LegalCfgH c cfg.
+Proof. intros c H cfg. apply legal_configb_sound_hp. now apply wf_histpb_sound. Qed.
+Print Assumptions oracle_implies_legal_history_parallel.
+
+(* non-vacuity, computed from flatten: (a) a document with a shallow history directly below one <parallel> and a deep
+   history (two default targets) directly below another passes wf_histpb and is outside wf_histb; both are left and
+   re-entered through the histories (hpp_tree_run: default entry, shallow restore completed by default children, deep
+   restore; both engines); (b) the done-family charts with a history of tools/chart_runs.py (done_family(hist='hd'|'hs'):
+   parallel s3 with history child 20 and regions s4, s7, transition on done.state.s3) pass wf_histpb *)
+Theorem hypotheses_satisfiable_history_parallel :
+  wf_histpb (flatten false hpp_tree) = true /\ fs_type (st (flatten false hpp_tree) 0) = FCompound /\
+  wf_histb (flatten false hpp_tree) = false.
+Proof. exact hpp_tree_wf. Qed.
+Print Assumptions hypotheses_satisfiable_history_parallel.
+
+Theorem done_family_history_charts_are_covered :
+  wf_histpb (flatten false (done_family_tree KHistDeep [5; 8]%N)) = true /\
+  wf_histpb (flatten false (done_family_tree KHistShallow [4; 7]%N)) = true /\
+  wf_histb (flatten false (done_family_tree KHistDeep [5; 8]%N)) = false /\
+  wf_histb (flatten false (done_family_tree KHistShallow [4; 7]%N)) = false.
+Proof. exact done_family_hist_wf. Qed.
+Print Assumptions done_family_history_charts_are_covered.
+
+(* WHAT: the new clause cannot be dropped.  Document hpw_tree: parallel s2{deep history h20, s3{s4,s5}, s6{s7,s8}},
+   s9 --e3--> "h20 s4".  It passes every conjunct of wf_histpb but the target-set clause; after e2, e, e3 BOTH engine
+   models end with s4 and s5 active in the region s3 (legal_configb = false), and so does the Appendix-D algorithm
+   (Spec.v, run_spec: s2 s3 s4 s5 s6 s7).  A document problem the W3C algorithm shares, not a deviation of uscxml. *)
+Theorem history_of_parallel_target_set_needed :
+  exists t evs fuel,
+    let c := flatten false t in
+    whpb_target_sets c = false /\
+    (wfb_nonempty c && wfb_root c && wfb_parent c && wfb_children c && wfb_anc c && wfb_interval c &&
+     wfb_root_type c && wfb_src c && wfb_targets c && whpb_pseudo_parent c && whb_pseudo_leaf c && whpb_completion c &&
+     whb_initial c && whb_hist_default c && whb_hist_cpl c && whb_hist_disjoint c && whpb_par_hist c)%bool = true /\
+    legal_configb c (l_cfg (fst (run_loop c lstate (large_step lg_fixed ex_fixed c) l_cfg fuel l_pristine x_init evs))) = false /\
+    legal_configb c (l_cfg (fst (run_loop c lstate (fast_step ex_fixed c) l_cfg fuel l_pristine x_init evs))) = false /\
+    last (cfgs_of (fst (run_large lg_fixed ex_fixed false t evs fuel))) [] = [0; 2; 3; 4; 5; 6; 7]%N /\
+    last (cfgs_of (fst (run_fast ex_fixed false t evs fuel))) [] = [0; 2; 3; 4; 5; 6; 7]%N /\
+    last (cfgs_of (fst (run_spec false t evs fuel))) [] = [2; 3; 4; 5; 6; 7]%N.
+Proof. exact history_of_parallel_target_set_needed_refuted. Qed.
+Print Assumptions history_of_parallel_target_set_needed.
+
+(* WHAT: why the statements above are not in the shape of run_always_legal: LegalRun.LegalCfg (all children of an active
+   parallel state active) fails on a configuration the oracle accepts, of a chart of wf_histpb *)
+Theorem all_children_notion_refuted :
+  exists t fuel,
+    let c := flatten false t in
+    let cfg := l_cfg (fst (run_loop c lstate (large_step lg_fixed ex_fixed c) l_cfg fuel l_pristine x_init [])) in
+    wf_histpb c = true /\ legal_configb c cfg = true /\ ~ LegalCfg c cfg.
+Proof. exact all_children_shape_refuted. Qed.
+Print Assumptions all_children_notion_refuted.
